@@ -22,7 +22,9 @@ EVIDENCE = {
             'protocol generations); 1-4 user threads then issue set_value (boundary, random, out-of-range, RO, unknown), '
             'request_param_update, get_value, persistent store/clear/get_state and get_default_value with several queries '
             'outstanding, while the device delays replies and emits unsolicited value-updated notifications.',
-    'directed': 'for every parameter type: min, max, min-1, max+1 (and +-inf/nan-free float extremes) through set_value',
+    'directed': 'for every parameter type: min, max, min-1, max+1 (and +-inf/nan-free float extremes) through set_value; '
+                'single default / persistent / read queries issued while the updater is idle on a zero-latency link under '
+                '24 (200) PCT priority schedules',
     'real': ['Param', '_ParamUpdater', 'ParamTocElement', 'Toc', '_IncomingPacketHandler', 'Crazyflie.send_packet'],
     'stub': ['SimLink (FIFO, lossless; needs_resending False in the strict configuration, True with reply delays in a '
              'separate one)', 'SimCF parameter service'],
